@@ -108,7 +108,8 @@ static void case_text(ByteSource& in, CaseInfo& ci) {
   else { static const int bs[] = {2, 4, 8, 16, 32}; int base = bs[in.range(0, 4)]; int lb = base == 2 ? 1 : base == 4 ? 2 : base == 8 ? 3 : base == 16 ? 4 : 5;
     size_t n = (size_t)in.range(0, std::min<size_t>(cap, 8)); Limbs v = limbs_nz(in, n); long ex = (long)in.srange(-6, 8); bool neg = in.flag(); mpf_t x, r; mpf_init2(x, 64 * std::max<size_t>(n, 1)); mpf_init2(r, 64 * (n + 4));
     for (size_t i = 0; i < n; i++) x->_mp_d[i] = v[i]; x->_mp_size = neg ? -(int)n : (int)n; x->_mp_exp = n ? ex : 0; Int M = Int::from_limbs(v.data(), n, neg); long e2 = n ? 64 * (ex - (long)n) : 0;
-    size_t nd = in.flag() ? 0 : (size_t)in.range(1, 64 * n / lb + 3); ci.label("mpf_out_str->inp_str"); ci.nontrivial = n >= 1; ci.d("mpf text base=%d n_digits=%zu ", base, nd); DESC(ci, "m=" + show(M, 40) + "*2^" + std::to_string(e2));
+    size_t nd = in.flag() ? 0 : (size_t)in.range(1, 64 * n / lb + 3); if (in.chance(24)) { static const size_t HUGE_ND[] = {~(size_t)0, ~(size_t)0 - 1, ~(size_t)0 - 2, ~(size_t)0 - 9, (size_t)1 << 62, (size_t)1 << 40}; nd = HUGE_ND[in.range(0, 5)]; ci.label("mpf_out_str:n_digits_far_above_the_precision"); }   /* any n_digits is allowed: no more digits than the precision carries are produced */
+    ci.label("mpf_out_str->inp_str"); ci.nontrivial = n >= 1; ci.d("mpf text base=%d n_digits=%zu ", base, nd); DESC(ci, "m=" + show(M, 40) + "*2^" + std::to_string(e2));
     char* mem = nullptr; size_t ml = 0; FILE* fp = open_memstream(&mem, &ml); bool upper = in.flag(); if (upper) ci.label("mpf_out_str:negative_base"); size_t w = mpf_out_str(fp, upper ? -base : base, nd, x); fputc('\n', fp);   /* a negative base selects upper-case digits */ fclose(fp); std::string s(mem, ml); free(mem);
     // parse "[-]0.ddd(e|@)N": exact value of what was printed
     bool okfmt = w + 1 == s.size(); std::string t = s.substr(0, w); size_t p = 0; bool sneg = false; if (p < t.size() && t[p] == '-') { sneg = true; p++; } okfmt = okfmt && t.compare(p, 2, "0.") == 0; p += 2; std::vector<unsigned> dg; char sep = base <= 10 ? 'e' : '@'; while (okfmt && p < t.size() && t[p] != sep) { char ch = t[p]; if (upper && ch >= 'a' && ch <= 'z') { okfmt = false; break; } if (upper && ch >= 'A' && ch <= 'Z') ch = (char)(ch - 'A' + 'a'); const char* q = strchr(ALPHA36, ch); if (!q || q - ALPHA36 >= base) { okfmt = false; break; } dg.push_back((unsigned)(q - ALPHA36)); p++; }
